@@ -82,18 +82,32 @@ def exclOwn (th : Thread) : Nat :=
   | some ⟨.drop, _, _⟩ => 0
   | _ => 1
 
+/-- Side conditions of an in-flight method: `clone`/`count` (`&self`) run on an own handle or a
+borrowed reference; `mutate`/`unwrap` on an own handle; and only `&self` methods run while a
+handle of the thread is lent out (`pin`). -/
+def PcSide (pin : Bool) (th : Thread) (pc : Pc) : Prop :=
+  (pc.k = .clone ∨ pc.k = .count → 1 ≤ th.handles ∨ th.refs ≠ []) ∧
+  (pc.k = .mutate ∨ pc.k = .unwrap → 1 ≤ th.handles) ∧
+  (pc.k ≠ .clone → pc.k ≠ .count → pin = false)
+
 /-- The counting invariant. -/
 structure Wf1 (c : Cfg) (s : State) : Prop where
-  /-- the last message of the count is `live handles - 1` -/
+  /-- the last message of the count is `live handles - 1` (a lent handle counts once) -/
   track : 1 ≤ total s → s.last.val + 1 = total s
   /-- the stored count never exceeds the ceiling -/
   ceil : 1 ≤ total s → s.last.val ≤ c.ceil
-  /-- `J`: every message an owner may still read, except the last one, is `≥ 1` -/
-  J : ∀ (t : Nat) th, s.thr[t]? = some th → 1 ≤ owned th →
-        ∀ (i : Nat) m, s.hist[i]? = some m → th.coh ≤ i → 1 ≤ m.val
-  /-- in-flight methods are at a reachable program point and (except `drop`) run on a handle -/
+  /-- `J`: a `0` that is not the last message is out of reach of every thread that holds a
+  handle: its coherence index is already past it, or (its handle is lent out and) one of the
+  borrowers' is, and will be joined into it when the reference comes back -/
+  J : ∀ (i : Nat) m, s.hist[i]? = some m → m.val = 0 →
+        ∀ (t : Nat) th, s.thr[t]? = some th → 1 ≤ owned th →
+          i < th.coh ∨ ∃ (w : Nat) (wh : Thread), s.thr[w]? = some wh ∧ t ∈ wh.refs ∧ i < wh.coh
+  /-- in-flight methods are at a reachable program point, on a handle or reference -/
   pcok : ∀ (t : Nat) th pc, s.thr[t]? = some th → th.pc = some pc →
-        PcOk c pc ∧ (pc.k ≠ .drop → 1 ≤ th.handles)
+        PcOk c pc ∧ PcSide (pinned s t) th pc
+  /-- a lent handle is alive -/
+  Rf : ∀ (w : Nat) wh (u : Nat), s.thr[w]? = some wh → u ∈ wh.refs →
+        ∃ uh, s.thr[u]? = some uh ∧ 1 ≤ uh.handles
   /-- a thread with exclusive access is alone -/
   X : ∀ (t : Nat) th, s.thr[t]? = some th → excl th = true →
         (∀ (u : Nat) uh, u ≠ t → s.thr[u]? = some uh → owned uh = 0 ∧ excl uh = false) ∧
@@ -131,34 +145,187 @@ theorem total_upd {s s' : State} {t : Nat} {th th' : Thread} (ht : s.thr[t]? = s
   have := total_set s t th th' ht
   simpa [total, hthr] using this
 
+/-! ## Lent handles -/
+
+theorem pinned_iff (s : State) (u : Nat) :
+    pinned s u = true ↔ ∃ (w : Nat) (wh : Thread), s.thr[w]? = some wh ∧ u ∈ wh.refs := by
+  simp only [pinned, List.any_eq_true, List.contains_iff_mem]
+  constructor
+  · rintro ⟨wh, hmem, hu⟩
+    obtain ⟨w, hw⟩ := List.mem_iff_getElem?.1 hmem
+    exact ⟨w, wh, hw, hu⟩
+  · rintro ⟨w, wh, hw, hu⟩
+    exact ⟨wh, List.mem_iff_getElem?.2 ⟨w, hw⟩, hu⟩
+
+theorem not_mem_of_not_pinned {s : State} {u : Nat} (h : pinned s u = false) {w : Nat} {wh : Thread}
+    (hw : s.thr[w]? = some wh) : u ∉ wh.refs := by
+  intro hm
+  have := (pinned_iff s u).2 ⟨w, wh, hw, hm⟩
+  simp [h] at this
+
+/-- Replacing a thread record without changing its references does not change who is pinned. -/
+theorem pinned_set_same {s s' : State} {t : Nat} {th th' : Thread} (ht : s.thr[t]? = some th)
+    (hthr : s'.thr = s.thr.set t th') (hrefs : th'.refs = th.refs) (u : Nat) :
+    pinned s' u = pinned s u := by
+  rw [Bool.eq_iff_iff, pinned_iff, pinned_iff]
+  constructor
+  · rintro ⟨w, wh, hw, hm⟩
+    rw [hthr] at hw
+    rcases get_set_cases ht hw with ⟨rfl, rfl⟩ | ⟨_, hw'⟩
+    · exact ⟨_, th, ht, hrefs ▸ hm⟩
+    · exact ⟨w, wh, hw', hm⟩
+  · rintro ⟨w, wh, hw, hm⟩
+    by_cases hwt : w = t
+    · subst hwt
+      have : wh = th := by rw [ht] at hw; injection hw with hw; exact hw.symm
+      subst this
+      exact ⟨w, th', by rw [hthr]; exact get_set_self ht, hrefs ▸ hm⟩
+    · exact ⟨w, wh, by rw [hthr, get_set_ne hwt]; exact hw, hm⟩
+
+theorem PcSide.congr {pin pin' : Bool} {th th' : Thread} {pc pc' : Pc} (h : PcSide pin th pc)
+    (hk : pc'.k = pc.k) (hh : th.handles ≤ th'.handles) (hr : th'.refs = th.refs)
+    (hp : pin = false → pin' = false) : PcSide pin' th' pc' := by
+  obtain ⟨h1, h2, h3⟩ := h
+  refine ⟨?_, ?_, ?_⟩
+  · intro hk'
+    rw [hk] at hk'
+    rcases h1 hk' with h | h
+    · exact Or.inl (by omega)
+    · exact Or.inr (by rw [hr]; exact h)
+  · intro hk'
+    rw [hk] at hk'
+    have := h2 hk'; omega
+  · intro a b
+    rw [hk] at a b
+    exact hp (h3 a b)
+
+/-- A thread with exclusive access runs `drop`, `mutate` or `unwrap`. -/
+theorem excl_kind {th : Thread} (h : excl th = true) :
+    ∃ pc, th.pc = some pc ∧ pc.k ≠ .clone ∧ pc.k ≠ .count := by
+  unfold excl at h
+  split at h <;> first | (simp at h; done) | exact ⟨_, by assumption, by simp, by simp⟩
+
+/-- While some thread has exclusive access no reference is out. -/
+theorem Wf1.excl_no_refs {c : Cfg} {s : State} (h : Wf1 c s) {t : Nat} {th : Thread}
+    (ht : s.thr[t]? = some th) (hx : excl th = true) {w : Nat} {wh : Thread}
+    (hw : s.thr[w]? = some wh) : wh.refs = [] := by
+  cases hr : wh.refs with
+  | nil => rfl
+  | cons u rest =>
+    exfalso
+    have hu : u ∈ wh.refs := by rw [hr]; simp
+    obtain ⟨uh, huh, hh⟩ := h.Rf w wh u hw hu
+    by_cases hut : u = t
+    · subst hut
+      obtain ⟨pc, hpc, hk1, hk2⟩ := excl_kind hx
+      have : uh = th := by rw [ht] at huh; injection huh with huh; exact huh.symm
+      subst this
+      have hp := (h.pcok u uh pc ht hpc).2.2.2 hk1 hk2
+      have := (pinned_iff s u).2 ⟨w, wh, hw, hu⟩
+      simp [hp] at this
+    · have := ((h.X t th ht hx).1 u uh hut huh).1
+      simp [owned] at this
+      omega
+
+/-- In a state where `t` can use the buffer (own handle or borrowed reference), nothing has been
+freed and no OTHER thread has exclusive access. -/
+theorem Wf1.user_facts {c : Cfg} {s : State} (h : Wf1 c s) {t : Nat} {th : Thread}
+    (ht : s.thr[t]? = some th) (ho : 1 ≤ owned th ∨ th.refs ≠ []) :
+    s.freed = 0 ∧ 1 ≤ total s ∧
+      ∀ (u : Nat) uh, u ≠ t → s.thr[u]? = some uh → excl uh = false := by
+  -- some thread `v` owns a handle
+  have hown : ∃ (v : Nat) (vh : Thread), s.thr[v]? = some vh ∧ 1 ≤ owned vh := by
+    rcases ho with ho | ho
+    · exact ⟨t, th, ht, ho⟩
+    · cases hr : th.refs with
+      | nil => exact absurd hr ho
+      | cons u rest =>
+        obtain ⟨uh, huh, hh⟩ := h.Rf t th u ht (by rw [hr]; simp)
+        exact ⟨u, uh, huh, by simp [owned]; omega⟩
+  obtain ⟨v, vh, hv, hvo⟩ := hown
+  refine ⟨?_, ?_, ?_⟩
+  · rcases Nat.lt_or_ge s.freed 1 with hf | hf
+    · omega
+    · have := (h.Fz.2 (by have := h.Fz.1; omega) v vh hv).1; omega
+  · have := owned_le_total s v vh hv; omega
+  · intro u uh hu huh
+    cases hx : excl uh with
+    | false => rfl
+    | true =>
+      exfalso
+      by_cases hvu : v = u
+      · subst hvu
+        have : vh = uh := by rw [hv] at huh; injection huh
+        subst this
+        -- `u` is excl and owns: then `t` cannot hold a reference, so `t` owns: contradiction
+        rcases ho with ho | ho
+        · have := ((h.X v vh hv hx).1 t th (Ne.symm hu) ht).1; omega
+        · exact ho (h.excl_no_refs hv hx ht)
+      · have := ((h.X u uh huh hx).1 v vh hvu hv).1; omega
+
 /-- A step that only changes thread `t`'s record and the payload fields, keeps the number of
-handles it owns, and does not newly establish exclusive access. -/
+handles it owns and its references, and does not newly establish exclusive access. -/
 theorem Wf1.upd {c : Cfg} {s s' : State} (h : Wf1 c s) {t : Nat} {th th' : Thread}
     (ht : s.thr[t]? = some th)
     (hthr : s'.thr = s.thr.set t th') (hhist : s'.hist = s.hist) (hlast : s'.last = s.last)
     (hfreed : s'.freed = s.freed)
-    (hown : owned th' = owned th) (hcoh : th.coh ≤ th'.coh)
+    (hown : owned th' = owned th) (hcoh : th.coh ≤ th'.coh) (hrefs : th'.refs = th.refs)
+    (hhand : 1 ≤ th.handles → 1 ≤ th'.handles ∨ pinned s t = false)
     (hexcl : excl th' = true → (excl th = true ∧ exclOwn th' = exclOwn th) ∨
         (excl th = false ∧ total s = 1 ∧ owned th = 1 ∧ exclOwn th' = 1))
     (hunexcl : excl th = true → excl th' = false → 1 ≤ owned th)
-    (hpc : ∀ pc, th'.pc = some pc → PcOk c pc ∧ (pc.k ≠ .drop → 1 ≤ th'.handles)) :
+    (hpc : ∀ pc, th'.pc = some pc → PcOk c pc ∧ PcSide (pinned s t) th' pc) :
     Wf1 c s' := by
   have htot : total s' = total s := by
     have := total_upd ht hthr; omega
-  refine ⟨?_, ?_, ?_, ?_, ?_, ?_, ?_⟩
+  have hpin : ∀ u, pinned s' u = pinned s u := pinned_set_same ht hthr hrefs
+  -- a witness thread of `s` is still there in `s'`, with at least the same coherence index
+  have hwit : ∀ (x i : Nat), (∃ (w : Nat) (wh : Thread), s.thr[w]? = some wh ∧ x ∈ wh.refs ∧ i < wh.coh) →
+      ∃ (w : Nat) (wh : Thread), s'.thr[w]? = some wh ∧ x ∈ wh.refs ∧ i < wh.coh := by
+    rintro x i ⟨w, wh, hw, hm, hi⟩
+    by_cases hwt : w = t
+    · subst hwt
+      have : wh = th := by rw [ht] at hw; injection hw with hw; exact hw.symm
+      subst this
+      exact ⟨w, th', by rw [hthr]; exact get_set_self ht, hrefs ▸ hm, by omega⟩
+    · exact ⟨w, wh, by rw [hthr, get_set_ne hwt]; exact hw, hm, hi⟩
+  refine ⟨?_, ?_, ?_, ?_, ?_, ?_, ?_, ?_⟩
   · rw [htot, hlast]; exact h.track
   · rw [htot, hlast]; exact h.ceil
-  · intro u uh hu hown' i m hi hc
+  · intro i m hi hz u uh hu hown'
     rw [hhist] at hi
     rw [hthr] at hu
     rcases get_set_cases ht hu with ⟨rfl, rfl⟩ | ⟨_, hu'⟩
-    · exact h.J _ th ht (by omega) i m hi (by omega)
-    · exact h.J u uh hu' hown' i m hi hc
+    · rcases h.J i m hi hz _ th ht (by omega) with h1 | h1
+      · exact Or.inl (by omega)
+      · exact Or.inr (hwit _ i h1)
+    · rcases h.J i m hi hz u uh hu' hown' with h1 | h1
+      · exact Or.inl h1
+      · exact Or.inr (hwit _ i h1)
   · intro u uh pc hu hp
     rw [hthr] at hu
+    rw [hpin]
     rcases get_set_cases ht hu with ⟨rfl, rfl⟩ | ⟨_, hu'⟩
     · exact hpc pc hp
     · exact h.pcok u uh pc hu' hp
+  · intro w wh u hw hm
+    rw [hthr] at hw
+    have hold : ∃ uh, s.thr[u]? = some uh ∧ 1 ≤ uh.handles := by
+      rcases get_set_cases ht hw with ⟨rfl, rfl⟩ | ⟨_, hw'⟩
+      · exact h.Rf _ th u ht (hrefs ▸ hm)
+      · exact h.Rf w wh u hw' hm
+    have hpu : pinned s u = true := by
+      rw [← hpin, pinned_iff]; exact ⟨w, wh, by rw [hthr]; exact hw, hm⟩
+    obtain ⟨uh, huh, hh⟩ := hold
+    by_cases hut : u = t
+    · subst hut
+      have : uh = th := by rw [ht] at huh; injection huh with huh; exact huh.symm
+      subst this
+      refine ⟨th', by rw [hthr]; exact get_set_self ht, ?_⟩
+      rcases hhand hh with h1 | h1
+      · exact h1
+      · simp [h1] at hpu
+    · exact ⟨uh, by rw [hthr, get_set_ne hut]; exact huh, hh⟩
   · intro u uh hu he
     rw [hthr] at hu
     rw [hfreed]
@@ -251,7 +418,60 @@ theorem Wf1.upd {c : Cfg} {s s' : State} (h : Wf1 c s) {t : Nat} {th th' : Threa
 @[simp] theorem tick_res (th : Thread) (t : Nat) : (tick th t).res = th.res := rfl
 @[simp] theorem tick_pend (th : Thread) (t : Nat) : (tick th t).pend = th.pend := rfl
 
+@[simp] theorem acquireInto_refs (th : Thread) (o : Ord) (r : List Nat) :
+    (acquireInto th o r).refs = th.refs := by unfold acquireInto; split <;> rfl
+@[simp] theorem tick_refs (th : Thread) (t : Nat) : (tick th t).refs = th.refs := rfl
+
 /-! ## The steps that change the count or the set of owners -/
+
+/-- Index of the message that an RMW turns into a non-last one. -/
+theorem hist_append_cases {hist : List Msg} {last m : Msg} {i : Nat}
+    (hi : (hist ++ [last])[i]? = some m) : hist[i]? = some m ∨ (i = hist.length ∧ m = last) := by
+  rw [List.getElem?_append] at hi
+  split at hi
+  · exact Or.inl hi
+  · rename_i hlt
+    cases hk : i - hist.length with
+    | succ k => rw [hk] at hi; simp at hi
+    | zero =>
+      rw [hk] at hi
+      simp at hi
+      exact Or.inr ⟨by omega, hi.symm⟩
+
+/-- Common part of the two RMW steps (`drop`'s decrement, `clone`'s successful CAS) by
+thread `t`: the other clauses of `J`. -/
+theorem Wf1.J_rmw {c : Cfg} {s s' : State} (h : Wf1 c s) {t : Nat} {th th' : Thread}
+    (ht : s.thr[t]? = some th) (hthr : s'.thr = s.thr.set t th')
+    (hhist : s'.hist = s.hist ++ [s.last]) (hrefs : th'.refs = th.refs)
+    (hcoh : th'.coh = s.hist.length + 1)
+    -- the message that stops being the last one: if it is a `0`, every holder other than `t`
+    -- has lent its handle to `t`
+    (hnew : s.last.val = 0 → ∀ (u : Nat) uh, u ≠ t → s.thr[u]? = some uh → 1 ≤ owned uh → u ∈ th.refs) :
+    ∀ (i : Nat) m, s'.hist[i]? = some m → m.val = 0 →
+        ∀ (u : Nat) uh, s'.thr[u]? = some uh → 1 ≤ owned uh →
+          i < uh.coh ∨ ∃ (w : Nat) (wh : Thread), s'.thr[w]? = some wh ∧ u ∈ wh.refs ∧ i < wh.coh := by
+  intro i m hi hz u uh hu hown1
+  rw [hhist] at hi
+  have hilt : i < s.hist.length + 1 := by
+    rcases Nat.lt_or_ge i (s.hist ++ [s.last]).length with h' | h'
+    · simpa using h'
+    · simp [List.getElem?_eq_none h'] at hi
+  have hself : s'.thr[t]? = some th' := by rw [hthr]; exact get_set_self ht
+  rw [hthr] at hu
+  rcases get_set_cases ht hu with ⟨rfl, rfl⟩ | ⟨hne, hu'⟩
+  · exact Or.inl (by omega)
+  · rcases hist_append_cases hi with hi' | ⟨_, rfl⟩
+    · rcases h.J i m hi' hz u uh hu' hown1 with h1 | ⟨w, wh, hw, hm, hlt⟩
+      · exact Or.inl h1
+      · right
+        by_cases hwt : w = t
+        · subst hwt
+          have : wh = th := by rw [ht] at hw; injection hw with hw; exact hw.symm
+          subst this
+          exact ⟨w, th', hself, hrefs ▸ hm, by omega⟩
+        · exact ⟨w, wh, by rw [hthr, get_set_ne hwt]; exact hw, hm, hlt⟩
+    · right
+      exact ⟨t, th', hself, hrefs ▸ hnew hz u uh hne hu' hown1, by omega⟩
 
 /-- The decrement of `drop` (an RMW reading the last message). -/
 theorem Wf1.rmwSub {c : Cfg} {s : State} (h : Wf1 c s) {t : Nat} {th : Thread}
@@ -264,82 +484,74 @@ theorem Wf1.rmwSub {c : Cfg} {s : State} (h : Wf1 c s) {t : Nat} {th : Thread}
   have hle := owned_le_total s t th ht
   have htr := h.track (by omega)
   have hce := h.ceil (by omega)
+  obtain ⟨hfz, _, hnox⟩ := h.user_facts ht (Or.inl (by omega))
+  have hside := (h.pcok t th _ ht hpc).2
+  generalize hth' : acquireInto { th with coh := s.hist.length + 1, pc := some ⟨.drop, code', s.last.val⟩ } o s.last.rel = th'
   generalize hs' : doRmw s t th o (wrapSub c.ceil s.last.val 1) ⟨.drop, code', s.last.val⟩ = s'
-  have hthr : s'.thr = s.thr.set t
-      (acquireInto { th with coh := s.hist.length + 1, pc := some ⟨.drop, code', s.last.val⟩ } o s.last.rel) := by
-    subst hs'; rfl
+  have hthr : s'.thr = s.thr.set t th' := by subst hs' hth'; rfl
   have hhist : s'.hist = s.hist ++ [s.last] := by subst hs'; rfl
   have hlast : s'.last.val = wrapSub c.ceil s.last.val 1 := by subst hs'; rfl
   have hfreed : s'.freed = s.freed := by subst hs'; rfl
+  have hrefs : th'.refs = th.refs := by subst hth'; simp
+  have hcoh : th'.coh = s.hist.length + 1 := by subst hth'; simp
+  have hhand : th'.handles = th.handles := by subst hth'; simp
+  have hpc' : th'.pc = some ⟨.drop, code', s.last.val⟩ := by subst hth'; simp
+  have hpin : ∀ u, pinned s' u = pinned s u := pinned_set_same ht hthr hrefs
   have hret : localRet code' ≠ none := by rw [hcode']; simp
-  have hown' : owned (acquireInto { th with coh := s.hist.length + 1, pc := some ⟨.drop, code', s.last.val⟩ } o s.last.rel)
-      = th.handles := by
-    simp [owned, inflight, hret]
-  have hexcl' : excl (acquireInto { th with coh := s.hist.length + 1, pc := some ⟨.drop, code', s.last.val⟩ } o s.last.rel)
-      = decide (s.last.val = 0) := by
-    rw [excl_acquireInto]
-    show (localRet code' == some Ret.overflow) = _
+  have hown' : owned th' = th.handles := by
+    simp [owned, inflight, hpc', hret, hhand]
+  have hexcl' : excl th' = decide (s.last.val = 0) := by
+    simp only [excl, hpc']
     rw [hcode']
     by_cases hv : s.last.val = 0 <;> simp [hv]
   have htot := total_upd ht hthr
   rw [hown, hown'] at htot
-  -- no other thread had exclusive access
-  have hnox : ∀ (u : Nat) uh, u ≠ t → s.thr[u]? = some uh → excl uh = false := by
-    intro u uh hu huh
-    cases hx : excl uh with
-    | false => rfl
-    | true => have := ((h.X u uh huh hx).1 t th (Ne.symm hu) ht).1; omega
-  have hfz : s.freed = 0 := by
-    rcases Nat.lt_or_ge s.freed 1 with hf | hf
-    · omega
-    · have := (h.Fz.2 (by have := h.Fz.1; omega) t th ht).1; omega
-  refine ⟨?_, ?_, ?_, ?_, ?_, ?_, ?_⟩
+  refine ⟨?_, ?_, ?_, ?_, ?_, ?_, ?_, ?_⟩
   · intro h1; rw [hlast]; unfold wrapSub; split <;> omega
   · intro h1; rw [hlast]; unfold wrapSub; split <;> omega
-  · intro u uh hu hown1 i m hi hc
-    rw [hthr] at hu
-    rw [hhist] at hi
-    rcases get_set_cases ht hu with ⟨rfl, rfl⟩ | ⟨hne, hu'⟩
-    · have hlt : i < (s.hist ++ [s.last]).length := by
-        rcases Nat.lt_or_ge i (s.hist ++ [s.last]).length with h' | h'
-        · exact h'
-        · simp [List.getElem?_eq_none h'] at hi
-      simp at hc hlt; omega
-    · rw [List.getElem?_append] at hi
-      split at hi
-      · exact h.J u uh hu' hown1 i m hi hc
-      · cases hk : i - s.hist.length with
-        | succ k => rw [hk] at hi; simp at hi
-        | zero =>
-          rw [hk] at hi
-          simp at hi
-          subst hi
-          have := owned_add_le_total s t u th uh (Ne.symm hne) ht hu'
-          omega
+  · refine h.J_rmw ht hthr hhist hrefs hcoh ?_
+    intro hv u uh hne hu ho
+    have := owned_add_le_total s t u th uh (Ne.symm hne) ht hu
+    omega
   · intro u uh pc hu hp
     rw [hthr] at hu
+    rw [hpin]
     rcases get_set_cases ht hu with ⟨rfl, rfl⟩ | ⟨_, hu'⟩
-    · simp at hp
+    · rw [hpc'] at hp
+      injection hp with hp
       subst hp
-      refine ⟨?_, by simp⟩
+      refine ⟨?_, hside.congr rfl (by omega) hrefs id⟩
       simp only [PcOk]
       by_cases hv : s.last.val = 0
       · right; left; simp [hcode', hv]
       · right; right; simp [hcode', hv]
     · exact h.pcok u uh pc hu' hp
+  · intro w wh u hw hm
+    rw [hthr] at hw
+    have hold : ∃ uh, s.thr[u]? = some uh ∧ 1 ≤ uh.handles := by
+      rcases get_set_cases ht hw with ⟨rfl, rfl⟩ | ⟨_, hw'⟩
+      · exact h.Rf _ th u ht (hrefs ▸ hm)
+      · exact h.Rf w wh u hw' hm
+    obtain ⟨uh, huh, hh⟩ := hold
+    by_cases hut : u = t
+    · subst hut
+      have : uh = th := by rw [ht] at huh; injection huh with huh; exact huh.symm
+      subst this
+      exact ⟨th', by rw [hthr]; exact get_set_self ht, by omega⟩
+    · exact ⟨uh, by rw [hthr, get_set_ne hut]; exact huh, hh⟩
   · intro u uh hu he
     rw [hthr] at hu
     rw [hfreed]
-    rcases get_set_cases ht hu with ⟨rfl, rfl⟩ | ⟨hne, hu'⟩
-    · rw [hexcl'] at he
+    rcases get_set_cases ht hu with ⟨rfl, huh⟩ | ⟨hne, hu'⟩
+    · rw [huh, hexcl'] at he
       simp at he
       refine ⟨?_, ?_, hfz⟩
       · intro v vh hv hvt
         rw [hthr, get_set_ne hv] at hvt
         have := owned_add_le_total s u v th vh (Ne.symm hv) ht hvt
         exact ⟨by omega, hnox v vh hv hvt⟩
-      · rw [hown']
-        simp [exclOwn]
+      · rw [huh, hown']
+        simp [exclOwn, hpc']
         omega
     · rw [hnox u uh hne hu'] at he; simp at he
   · rw [hfreed]
@@ -347,79 +559,91 @@ theorem Wf1.rmwSub {c : Cfg} {s : State} (h : Wf1 c s) {t : Nat} {th : Thread}
     intro hf; omega
   · intro h0
     right
-    refine ⟨t, _, by rw [hthr]; exact get_set_self ht, ?_⟩
+    refine ⟨t, th', by rw [hthr]; exact get_set_self ht, ?_⟩
     rw [hexcl']
     simp; omega
 
-/-- The successful compare-exchange of `clone` (an RMW reading the last message). -/
+/-- The successful compare-exchange of `clone` (an RMW reading the last message), on an own
+handle or through a borrowed reference. -/
 theorem Wf1.casSucc {c : Cfg} {s : State} (h : Wf1 c s) {t : Nat} {th : Thread}
     (ht : s.thr[t]? = some th) {code : List AStep} {old : Nat}
     (hpc : th.pc = some ⟨.clone, code, old⟩) (hcode : localRet code = none)
-    (hh : 1 ≤ th.handles) (hold : s.last.val = old) (hb : old < c.ceil) (o : Ord) :
+    (hold : s.last.val = old) (hb : old < c.ceil) (o : Ord) :
     Wf1 c (doRmw s t th o (wrapAdd c.ceil old 1) ⟨.clone, [.ret .done], old⟩) := by
   have hown : owned th = th.handles := by simp [owned, inflight, hpc, hcode]
-  have hle := owned_le_total s t th ht
-  have htr := h.track (by omega)
+  have hside := (h.pcok t th _ ht hpc).2
+  have huse : 1 ≤ owned th ∨ th.refs ≠ [] := by
+    rcases hside.1 (Or.inl rfl) with h1 | h1
+    · exact Or.inl (by omega)
+    · exact Or.inr h1
+  obtain ⟨hfz, htot1, hnox⟩ := h.user_facts ht huse
+  have htr := h.track htot1
+  generalize hth' : acquireInto { th with coh := s.hist.length + 1, pc := some ⟨.clone, [.ret .done], old⟩ } o s.last.rel = th'
   generalize hs' : doRmw s t th o (wrapAdd c.ceil old 1) ⟨.clone, [.ret .done], old⟩ = s'
-  have hthr : s'.thr = s.thr.set t
-      (acquireInto { th with coh := s.hist.length + 1, pc := some ⟨.clone, [.ret .done], old⟩ } o s.last.rel) := by
-    subst hs'; rfl
+  have hthr : s'.thr = s.thr.set t th' := by subst hs' hth'; rfl
   have hhist : s'.hist = s.hist ++ [s.last] := by subst hs'; rfl
   have hlast : s'.last.val = wrapAdd c.ceil old 1 := by subst hs'; rfl
   have hfreed : s'.freed = s.freed := by subst hs'; rfl
-  have hown' : owned (acquireInto { th with coh := s.hist.length + 1, pc := some ⟨.clone, [.ret .done], old⟩ } o s.last.rel)
-      = th.handles + 1 := by
-    simp [owned, inflight, localRet]
-  have hexcl' : excl (acquireInto { th with coh := s.hist.length + 1, pc := some ⟨.clone, [.ret .done], old⟩ } o s.last.rel)
-      = false := by
-    simp [excl]
+  have hrefs : th'.refs = th.refs := by subst hth'; simp
+  have hcoh : th'.coh = s.hist.length + 1 := by subst hth'; simp
+  have hhand : th'.handles = th.handles := by subst hth'; simp
+  have hpc' : th'.pc = some ⟨.clone, [.ret .done], old⟩ := by subst hth'; simp
+  have hpin : ∀ u, pinned s' u = pinned s u := pinned_set_same ht hthr hrefs
+  have hown' : owned th' = th.handles + 1 := by
+    simp [owned, inflight, hpc', localRet, hhand]
+  have hexcl' : excl th' = false := by simp [excl, hpc']
   have htot := total_upd ht hthr
   rw [hown, hown'] at htot
-  have hnox : ∀ (u : Nat) uh, u ≠ t → s.thr[u]? = some uh → excl uh = false := by
-    intro u uh hu huh
-    cases hx : excl uh with
-    | false => rfl
-    | true => have := ((h.X u uh huh hx).1 t th (Ne.symm hu) ht).1; omega
-  have hfz : s.freed = 0 := by
-    rcases Nat.lt_or_ge s.freed 1 with hf | hf
-    · omega
-    · have := (h.Fz.2 (by have := h.Fz.1; omega) t th ht).1; omega
   have hwrap : wrapAdd c.ceil old 1 = old + 1 := by unfold wrapAdd; split <;> omega
-  refine ⟨?_, ?_, ?_, ?_, ?_, ?_, ?_⟩
+  refine ⟨?_, ?_, ?_, ?_, ?_, ?_, ?_, ?_⟩
   · intro h1; rw [hlast, hwrap]; omega
   · intro h1; rw [hlast, hwrap]; omega
-  · intro u uh hu hown1 i m hi hc
-    rw [hthr] at hu
-    rw [hhist] at hi
-    rcases get_set_cases ht hu with ⟨rfl, rfl⟩ | ⟨hne, hu'⟩
-    · have hlt : i < (s.hist ++ [s.last]).length := by
-        rcases Nat.lt_or_ge i (s.hist ++ [s.last]).length with h' | h'
-        · exact h'
-        · simp [List.getElem?_eq_none h'] at hi
-      simp at hc hlt; omega
-    · rw [List.getElem?_append] at hi
-      split at hi
-      · exact h.J u uh hu' hown1 i m hi hc
-      · cases hk : i - s.hist.length with
-        | succ k => rw [hk] at hi; simp at hi
-        | zero =>
-          rw [hk] at hi
-          simp at hi
-          subst hi
-          have := owned_add_le_total s t u th uh (Ne.symm hne) ht hu'
+  · refine h.J_rmw ht hthr hhist hrefs hcoh ?_
+    intro hv u uh hne hu ho
+    -- one handle in all: it is `u`'s, and `t` clones through a reference to it
+    have hadd := owned_add_le_total s t u th uh (Ne.symm hne) ht hu
+    have hth0 : th.handles = 0 := by omega
+    rcases hside.1 (Or.inl rfl) with h1 | h1
+    · omega
+    · cases hr : th.refs with
+      | nil => exact absurd hr h1
+      | cons l rest =>
+        obtain ⟨lh, hlh, hh⟩ := h.Rf t th l ht (by rw [hr]; simp)
+        by_cases hlu : l = u
+        · subst hlu; simp
+        · have hlt : l ≠ t := by
+            intro e; subst e
+            have : lh = th := by rw [ht] at hlh; injection hlh with hlh; exact hlh.symm
+            subst this; omega
+          have := owned_add_le_total s l u lh uh hlu hlh hu
+          have : 1 ≤ owned lh := by simp [owned]; omega
           omega
   · intro u uh pc hu hp
     rw [hthr] at hu
+    rw [hpin]
     rcases get_set_cases ht hu with ⟨rfl, rfl⟩ | ⟨_, hu'⟩
-    · simp at hp
+    · rw [hpc'] at hp
+      injection hp with hp
       subst hp
-      refine ⟨?_, by simpa using hh⟩
-      simp [PcOk, localRet]
+      exact ⟨by simp [PcOk, localRet], hside.congr rfl (by omega) hrefs id⟩
     · exact h.pcok u uh pc hu' hp
+  · intro w wh u hw hm
+    rw [hthr] at hw
+    have hold' : ∃ uh, s.thr[u]? = some uh ∧ 1 ≤ uh.handles := by
+      rcases get_set_cases ht hw with ⟨rfl, rfl⟩ | ⟨_, hw'⟩
+      · exact h.Rf _ th u ht (hrefs ▸ hm)
+      · exact h.Rf w wh u hw' hm
+    obtain ⟨uh, huh, hh⟩ := hold'
+    by_cases hut : u = t
+    · subst hut
+      have : uh = th := by rw [ht] at huh; injection huh with huh; exact huh.symm
+      subst this
+      exact ⟨th', by rw [hthr]; exact get_set_self ht, by omega⟩
+    · exact ⟨uh, by rw [hthr, get_set_ne hut]; exact huh, hh⟩
   · intro u uh hu he
     rw [hthr] at hu
-    rcases get_set_cases ht hu with ⟨rfl, rfl⟩ | ⟨hne, hu'⟩
-    · rw [hexcl'] at he; simp at he
+    rcases get_set_cases ht hu with ⟨rfl, huh⟩ | ⟨hne, hu'⟩
+    · rw [huh, hexcl'] at he; simp at he
     · rw [hnox u uh hne hu'] at he; simp at he
   · rw [hfreed]
     refine ⟨h.Fz.1, ?_⟩
@@ -430,9 +654,15 @@ theorem Wf1.casSucc {c : Cfg} {s : State} (h : Wf1 c s) {t : Nat} {th : Thread}
 theorem Wf1.free {c : Cfg} {s s' : State} (h : Wf1 c s) {t : Nat} {th th' : Thread}
     (ht : s.thr[t]? = some th) (hx : excl th = true)
     (hthr : s'.thr = s.thr.set t th')
-    (hfreed : s'.freed = s.freed + 1) (hown : owned th' = 0) (hpc : th'.pc = none) :
-    Wf1 c s' := by
+    (hfreed : s'.freed = s.freed + 1) (hown : owned th' = 0) (hpc : th'.pc = none)
+    (hrefs : th'.refs = th.refs) : Wf1 c s' := by
   obtain ⟨h1, h2, h3⟩ := h.X t th ht hx
+  have hnoref : ∀ (w : Nat) wh, s'.thr[w]? = some wh → wh.refs = [] := by
+    intro w wh hw
+    rw [hthr] at hw
+    rcases get_set_cases ht hw with ⟨rfl, rfl⟩ | ⟨_, hw'⟩
+    · rw [hrefs]; exact h.excl_no_refs ht hx ht
+    · exact h.excl_no_refs ht hx hw'
   have hall : ∀ (u : Nat) uh, s'.thr[u]? = some uh → owned uh = 0 ∧ excl uh = false := by
     intro u uh hu
     rw [hthr] at hu
@@ -440,23 +670,77 @@ theorem Wf1.free {c : Cfg} {s s' : State} (h : Wf1 c s) {t : Nat} {th th' : Thre
     · exact ⟨hown, by simp [excl, hpc]⟩
     · exact h1 u uh hne hu'
   have htot : total s' = 0 := (total_eq_zero_iff s').2 fun u uh hu => (hall u uh hu).1
-  refine ⟨by omega, by omega, ?_, ?_, ?_, ?_, ?_⟩
-  · intro u uh hu hown1
+  have hpin : ∀ u, pinned s' u = pinned s u := pinned_set_same ht hthr hrefs
+  refine ⟨by omega, by omega, ?_, ?_, ?_, ?_, ?_, ?_⟩
+  · intro i m _ _ u uh hu hown1
     have := (hall u uh hu).1; omega
   · intro u uh pc hu hp
     rw [hthr] at hu
+    rw [hpin]
     rcases get_set_cases ht hu with ⟨rfl, rfl⟩ | ⟨_, hu'⟩
     · rw [hpc] at hp; simp at hp
     · exact h.pcok u uh pc hu' hp
+  · intro w wh u hw hm
+    rw [hnoref w wh hw] at hm; simp at hm
   · intro u uh hu he
     rw [(hall u uh hu).2] at he; simp at he
   · exact ⟨by omega, fun _ => hall⟩
   · intro _; left; omega
 
-/-- Handing a handle from the idle thread `t` to the idle thread `u`. -/
+/-- Lookup after replacing two threads. -/
+theorem get_set2_cases {l : List Thread} {t u w : Nat} {th uh th' uh' wh : Thread}
+    (ht : l[t]? = some th) (hu : l[u]? = some uh) (htu : t ≠ u)
+    (hw : ((l.set t th').set u uh')[w]? = some wh) :
+    (w = u ∧ wh = uh') ∨ (w = t ∧ wh = th') ∨ (w ≠ t ∧ w ≠ u ∧ l[w]? = some wh) := by
+  have hu1 : (l.set t th')[u]? = some uh := by rw [get_set_ne (Ne.symm htu)]; exact hu
+  rcases get_set_cases hu1 hw with ⟨rfl, rfl⟩ | ⟨hne, hw'⟩
+  · exact Or.inl ⟨rfl, rfl⟩
+  · rcases get_set_cases ht hw' with ⟨rfl, rfl⟩ | ⟨hne', hw''⟩
+    · exact Or.inr (Or.inl ⟨rfl, rfl⟩)
+    · exact Or.inr (Or.inr ⟨hne', hne, hw''⟩)
+
+theorem get_set2_self {l : List Thread} {t u : Nat} {th uh th' uh' : Thread}
+    (ht : l[t]? = some th) (hu : l[u]? = some uh) (htu : t ≠ u) :
+    ((l.set t th').set u uh')[t]? = some th' ∧ ((l.set t th').set u uh')[u]? = some uh' := by
+  have hu1 : (l.set t th')[u]? = some uh := by rw [get_set_ne (Ne.symm htu)]; exact hu
+  exact ⟨by rw [get_set_ne htu]; exact get_set_self ht, get_set_self hu1⟩
+
+theorem get_set2_ne {l : List Thread} {t u w : Nat} {th' uh' : Thread} (hwt : w ≠ t) (hwu : w ≠ u) :
+    ((l.set t th').set u uh')[w]? = l[w]? := by
+  rw [get_set_ne hwu, get_set_ne hwt]
+
+/-- Replacing two thread records without changing references does not change who is pinned. -/
+theorem pinned_set2_same {s s' : State} {t u : Nat} {th uh th' uh' : Thread}
+    (ht : s.thr[t]? = some th) (hu : s.thr[u]? = some uh) (htu : t ≠ u)
+    (hthr : s'.thr = (s.thr.set t th').set u uh') (hrt : th'.refs = th.refs)
+    (hru : uh'.refs = uh.refs) (x : Nat) : pinned s' x = pinned s x := by
+  obtain ⟨hst, hsu⟩ := get_set2_self (th' := th') (uh' := uh') ht hu htu
+  rw [Bool.eq_iff_iff, pinned_iff, pinned_iff]
+  constructor
+  · rintro ⟨w, wh, hw, hm⟩
+    rw [hthr] at hw
+    rcases get_set2_cases ht hu htu hw with ⟨rfl, rfl⟩ | ⟨rfl, rfl⟩ | ⟨_, _, hw'⟩
+    · exact ⟨_, uh, hu, hru ▸ hm⟩
+    · exact ⟨_, th, ht, hrt ▸ hm⟩
+    · exact ⟨w, wh, hw', hm⟩
+  · rintro ⟨w, wh, hw, hm⟩
+    by_cases hwt : w = t
+    · subst hwt
+      have : wh = th := by rw [ht] at hw; injection hw with hw; exact hw.symm
+      subst this
+      exact ⟨w, th', by rw [hthr]; exact hst, hrt ▸ hm⟩
+    · by_cases hwu : w = u
+      · subst hwu
+        have : wh = uh := by rw [hu] at hw; injection hw with hw; exact hw.symm
+        subst this
+        exact ⟨w, uh', by rw [hthr]; exact hsu, hru ▸ hm⟩
+      · exact ⟨w, wh, by rw [hthr, get_set2_ne hwt hwu]; exact hw, hm⟩
+
+/-- Handing a handle from the idle, unpinned thread `t` to the idle thread `u`. -/
 theorem Wf1.send {c : Cfg} {s : State} (h : Wf1 c s) {t u : Nat} {th uh : Thread}
     (ht : s.thr[t]? = some th) (hu : s.thr[u]? = some uh) (htu : t ≠ u)
-    (hpt : th.pc = none) (hpu : uh.pc = none) (hh : 1 ≤ th.handles) (v : List Nat)
+    (hpt : th.pc = none) (hpu : uh.pc = none) (hh : 1 ≤ th.handles) (hnp : pinned s t = false)
+    (v : List Nat)
     (th' uh' : Thread) (hth' : { th with handles := th.handles - 1 } = th')
     (huh' : { uh with handles := uh.handles + 1, view := v, coh := max uh.coh th.coh } = uh') :
     Wf1 c { s with thr := (s.thr.set t th').set u uh' } := by
@@ -466,46 +750,73 @@ theorem Wf1.send {c : Cfg} {s : State} (h : Wf1 c s) {t u : Nat} {th uh : Thread
   have hownu' : owned uh' = uh.handles + 1 := by subst huh'; simp [owned, inflight, hpu]
   have hxt' : excl th' = false := by subst hth'; simp [excl, hpt]
   have hxu' : excl uh' = false := by subst huh'; simp [excl, hpu]
-  have hu1 : (s.thr.set t th')[u]? = some uh := by rw [get_set_ne (Ne.symm htu)]; exact hu
-  have hlook : ∀ (w : Nat) wh, ((s.thr.set t th').set u uh')[w]? = some wh →
-      (w = u ∧ wh = uh') ∨ (w = t ∧ wh = th') ∨ (w ≠ t ∧ w ≠ u ∧ s.thr[w]? = some wh) := by
-    intro w wh hw
-    rcases get_set_cases hu1 hw with ⟨rfl, rfl⟩ | ⟨hne, hw'⟩
-    · exact Or.inl ⟨rfl, rfl⟩
-    · rcases get_set_cases ht hw' with ⟨rfl, rfl⟩ | ⟨hne', hw''⟩
-      · exact Or.inr (Or.inl ⟨rfl, rfl⟩)
-      · exact Or.inr (Or.inr ⟨hne', hne, hw''⟩)
+  have hrt : th'.refs = th.refs := by subst hth'; rfl
+  have hru : uh'.refs = uh.refs := by subst huh'; rfl
+  have hct : th'.coh = th.coh := by subst hth'; rfl
+  have hcu : uh'.coh = max uh.coh th.coh := by subst huh'; rfl
+  obtain ⟨hst, hsu⟩ := get_set2_self (th' := th') (uh' := uh') ht hu htu
+  have hlook := fun (w : Nat) wh => get_set2_cases (w := w) (wh := wh) (th' := th') (uh' := uh') ht hu htu
   have htot : total { s with thr := (s.thr.set t th').set u uh' } = total s := by
+    have hu1 : (s.thr.set t th')[u]? = some uh := by rw [get_set_ne (Ne.symm htu)]; exact hu
     have e1 := total_set s t th th' ht
     have e2 := total_set { s with thr := s.thr.set t th' } u uh uh' hu1
     simp only [total] at e1 e2 ⊢
     omega
   have hle := owned_le_total s t th ht
-  have hnox : ∀ (w : Nat) wh, w ≠ t → s.thr[w]? = some wh → excl wh = false := by
-    intro w wh hw hwh
-    cases hx : excl wh with
-    | false => rfl
-    | true => have := ((h.X w wh hwh hx).1 t th (Ne.symm hw) ht).1; omega
-  have hfz : s.freed = 0 := by
-    rcases Nat.lt_or_ge s.freed 1 with hf | hf
-    · omega
-    · have := (h.Fz.2 (by have := h.Fz.1; omega) t th ht).1; omega
-  refine ⟨?_, ?_, ?_, ?_, ?_, ?_, ?_⟩
+  obtain ⟨hfz, _, hnox⟩ := h.user_facts ht (Or.inl (by omega))
+  have hpin : ∀ x, pinned { s with thr := (s.thr.set t th').set u uh' } x = pinned s x :=
+    pinned_set2_same ht hu htu rfl hrt hru
+  -- witnesses survive (their coherence index can only grow)
+  have hwit : ∀ (x i : Nat), (∃ (w : Nat) (wh : Thread), s.thr[w]? = some wh ∧ x ∈ wh.refs ∧ i < wh.coh) →
+      ∃ (w : Nat) (wh : Thread), ((s.thr.set t th').set u uh')[w]? = some wh ∧ x ∈ wh.refs ∧ i < wh.coh := by
+    rintro x i ⟨w, wh, hw, hm, hi⟩
+    by_cases hwt : w = t
+    · subst hwt
+      have : wh = th := by rw [ht] at hw; injection hw with hw; exact hw.symm
+      subst this
+      exact ⟨w, th', hst, hrt ▸ hm, by omega⟩
+    · by_cases hwu : w = u
+      · subst hwu
+        have : wh = uh := by rw [hu] at hw; injection hw with hw; exact hw.symm
+        subst this
+        exact ⟨w, uh', hsu, hru ▸ hm, by rw [hcu]; omega⟩
+      · exact ⟨w, wh, by rw [get_set2_ne hwt hwu]; exact hw, hm, hi⟩
+  refine ⟨?_, ?_, ?_, ?_, ?_, ?_, ?_, ?_⟩
   · rw [htot]; exact h.track
   · rw [htot]; exact h.ceil
-  · intro w wh hw hown1 i m hi hc
+  · intro i m hi hz w wh hw hown1
     rcases hlook w wh hw with ⟨rfl, rfl⟩ | ⟨rfl, rfl⟩ | ⟨_, _, hw'⟩
-    · subst huh'
-      simp at hc
-      exact h.J t th ht (by omega) i m hi (by omega)
-    · subst hth'
-      exact h.J _ th ht (by omega) i m hi hc
-    · exact h.J w wh hw' hown1 i m hi hc
+    · -- the receiver: through the sender, which is not pinned
+      rcases h.J i m hi hz t th ht (by omega) with h1 | ⟨x, xh, hx, hm, _⟩
+      · exact Or.inl (by rw [hcu]; omega)
+      · exact absurd hm (not_mem_of_not_pinned hnp hx)
+    · rcases h.J i m hi hz _ th ht (by omega) with h1 | h1
+      · exact Or.inl (by omega)
+      · exact Or.inr (hwit _ i h1)
+    · rcases h.J i m hi hz w wh hw' hown1 with h1 | h1
+      · exact Or.inl h1
+      · exact Or.inr (hwit _ i h1)
   · intro w wh pc hw hp
+    rw [hpin]
     rcases hlook w wh hw with ⟨rfl, rfl⟩ | ⟨rfl, rfl⟩ | ⟨_, _, hw'⟩
     · subst huh'; simp [hpu] at hp
     · subst hth'; simp [hpt] at hp
     · exact h.pcok w wh pc hw' hp
+  · intro w wh x hw hm
+    have hold : ∃ xh, s.thr[x]? = some xh ∧ 1 ≤ xh.handles := by
+      rcases hlook w wh hw with ⟨rfl, rfl⟩ | ⟨rfl, rfl⟩ | ⟨_, _, hw'⟩
+      · exact h.Rf _ uh x hu (hru ▸ hm)
+      · exact h.Rf _ th x ht (hrt ▸ hm)
+      · exact h.Rf w wh x hw' hm
+    have hpx : pinned s x = true := by
+      rw [← hpin, pinned_iff]; exact ⟨w, wh, hw, hm⟩
+    obtain ⟨xh, hxh, hh'⟩ := hold
+    by_cases hxt : x = t
+    · subst hxt; simp [hnp] at hpx
+    · by_cases hxu : x = u
+      · subst hxu
+        exact ⟨uh', hsu, by subst huh'; simp⟩
+      · exact ⟨xh, by rw [get_set2_ne hxt hxu]; exact hxh, hh'⟩
   · intro w wh hw he
     rcases hlook w wh hw with ⟨rfl, rfl⟩ | ⟨rfl, rfl⟩ | ⟨hwt, _, hw'⟩
     · rw [hxu'] at he; simp at he
@@ -516,20 +827,251 @@ theorem Wf1.send {c : Cfg} {s : State} (h : Wf1 c s) {t u : Nat} {th uh : Thread
     simp at hf; omega
   · rw [htot]; intro h0; omega
 
-/-! ## Thread-local steps -/
+/-- Thread `u` lends a shared reference to one of its handles to the idle thread `t`. -/
+theorem Wf1.borrow {c : Cfg} {s : State} (h : Wf1 c s) {t u : Nat} {th uh : Thread}
+    (ht : s.thr[t]? = some th) (hu : s.thr[u]? = some uh) (htu : t ≠ u)
+    (hpt : th.pc = none) (hpu : uh.pc = none) (hh : 1 ≤ uh.handles) (v : List Nat)
+    (th' : Thread) (hth' : { th with refs := u :: th.refs, view := v, coh := max th.coh uh.coh } = th') :
+    Wf1 c { s with thr := s.thr.set t th' } := by
+  have hown' : owned th' = owned th := by subst hth'; simp [owned]
+  have hx' : excl th' = false := by subst hth'; simp [excl, hpt]
+  have hx : excl th = false := by simp [excl, hpt]
+  have hself : (s.thr.set t th')[t]? = some th' := get_set_self ht
+  have htot : total { s with thr := s.thr.set t th' } = total s := by
+    have := total_upd (s' := { s with thr := s.thr.set t th' }) ht rfl; omega
+  have hrefs : ∀ x, x ∈ th.refs → x ∈ th'.refs := by
+    intro x hx; subst hth'; simp [hx]
+  have hcoh : th.coh ≤ th'.coh := by subst hth'; simp; omega
+  -- pinned threads: the same ones, plus `u`
+  have hpin : ∀ x, pinned { s with thr := s.thr.set t th' } x = true → pinned s x = true ∨ x = u := by
+    intro x hp
+    rw [pinned_iff] at hp
+    obtain ⟨w, wh, hw, hm⟩ := hp
+    rcases get_set_cases ht hw with ⟨rfl, rfl⟩ | ⟨_, hw'⟩
+    · subst hth'
+      simp at hm
+      rcases hm with rfl | hm
+      · exact Or.inr rfl
+      · exact Or.inl ((pinned_iff s x).2 ⟨_, th, ht, hm⟩)
+    · exact Or.inl ((pinned_iff s x).2 ⟨w, wh, hw', hm⟩)
+  have hwit : ∀ (x i : Nat), (∃ (w : Nat) (wh : Thread), s.thr[w]? = some wh ∧ x ∈ wh.refs ∧ i < wh.coh) →
+      ∃ (w : Nat) (wh : Thread), (s.thr.set t th')[w]? = some wh ∧ x ∈ wh.refs ∧ i < wh.coh := by
+    rintro x i ⟨w, wh, hw, hm, hi⟩
+    by_cases hwt : w = t
+    · subst hwt
+      have : wh = th := by rw [ht] at hw; injection hw with hw; exact hw.symm
+      subst this
+      exact ⟨w, th', hself, hrefs x hm, by omega⟩
+    · exact ⟨w, wh, by rw [get_set_ne hwt]; exact hw, hm, hi⟩
+  refine ⟨?_, ?_, ?_, ?_, ?_, ?_, ?_, ?_⟩
+  · rw [htot]; exact h.track
+  · rw [htot]; exact h.ceil
+  · intro i m hi hz w wh hw hown1
+    rcases get_set_cases ht hw with ⟨rfl, rfl⟩ | ⟨_, hw'⟩
+    · rcases h.J i m hi hz _ th ht (by omega) with h1 | h1
+      · exact Or.inl (by omega)
+      · exact Or.inr (hwit _ i h1)
+    · rcases h.J i m hi hz w wh hw' hown1 with h1 | h1
+      · exact Or.inl h1
+      · exact Or.inr (hwit _ i h1)
+  · intro w wh pc hw hp
+    rcases get_set_cases ht hw with ⟨rfl, rfl⟩ | ⟨hne, hw'⟩
+    · subst hth'; simp [hpt] at hp
+    · obtain ⟨h1, h2⟩ := h.pcok w wh pc hw' hp
+      refine ⟨h1, h2.congr rfl (Nat.le_refl _) rfl ?_⟩
+      intro hf
+      cases hp' : pinned { s with thr := s.thr.set t th' } w with
+      | false => rfl
+      | true =>
+        rcases hpin w hp' with h3 | rfl
+        · simp [hf] at h3
+        · rw [hu] at hw'; injection hw' with hw'; subst hw'; simp [hpu] at hp
+  · intro w wh x hw hm
+    have hold : ∃ xh, s.thr[x]? = some xh ∧ 1 ≤ xh.handles := by
+      rcases get_set_cases ht hw with ⟨rfl, rfl⟩ | ⟨_, hw'⟩
+      · subst hth'
+        simp at hm
+        rcases hm with rfl | hm
+        · exact ⟨uh, hu, hh⟩
+        · exact h.Rf _ th x ht hm
+      · exact h.Rf w wh x hw' hm
+    obtain ⟨xh, hxh, hh'⟩ := hold
+    by_cases hxt : x = t
+    · subst hxt
+      have : xh = th := by rw [ht] at hxh; injection hxh with hxh; exact hxh.symm
+      subst this
+      exact ⟨th', hself, by subst hth'; simpa using hh'⟩
+    · exact ⟨xh, by rw [get_set_ne hxt]; exact hxh, hh'⟩
+  · intro w wh hw he
+    rcases get_set_cases ht hw with ⟨rfl, rfl⟩ | ⟨hne, hw'⟩
+    · rw [hx'] at he; simp at he
+    · obtain ⟨h1, h2, h3⟩ := h.X w wh hw' he
+      refine ⟨?_, h2, h3⟩
+      intro y yh hy hyt
+      rcases get_set_cases ht hyt with ⟨rfl, rfl⟩ | ⟨_, hy'⟩
+      · have := h1 _ th (Ne.symm hne) ht
+        exact ⟨by omega, hx'⟩
+      · exact h1 y yh hy hy'
+  · refine ⟨h.Fz.1, ?_⟩
+    intro hf w wh hw
+    rcases get_set_cases ht hw with ⟨rfl, rfl⟩ | ⟨_, hw'⟩
+    · have := h.Fz.2 hf _ th ht
+      exact ⟨by omega, hx'⟩
+    · exact h.Fz.2 hf w wh hw'
+  · rw [htot]
+    intro h0
+    rcases h.L h0 with hf | ⟨w, wh, hw, hxw⟩
+    · exact Or.inl hf
+    · right
+      by_cases hwt : w = t
+      · subst hwt
+        rw [ht] at hw; injection hw with hw; subst hw
+        simp [hx] at hxw
+      · exact ⟨w, wh, by rw [get_set_ne hwt]; exact hw, hxw⟩
 
-theorem PcOk.of_local_drop {c : Cfg} {code : List AStep} {old : Nat} {r : Ret}
-    (hr : localRet code = some r) (h : r = .overflow ∨ r = .done) : PcOk c ⟨.drop, code, old⟩ := by
-  rcases h with rfl | rfl
-  · exact Or.inr (Or.inl hr)
-  · exact Or.inr (Or.inr hr)
+/-- The idle thread `t` gives a reference back to the idle lender `u` (join). -/
+theorem Wf1.unborrow {c : Cfg} {s : State} (h : Wf1 c s) {t u : Nat} {th uh : Thread}
+    (ht : s.thr[t]? = some th) (hu : s.thr[u]? = some uh) (htu : t ≠ u)
+    (hpt : th.pc = none) (hpu : uh.pc = none) (hmem : u ∈ th.refs) (v : List Nat)
+    (th' uh' : Thread) (hth' : { th with refs := th.refs.erase u } = th')
+    (huh' : { uh with view := v, coh := max uh.coh th.coh } = uh') :
+    Wf1 c { s with thr := (s.thr.set t th').set u uh' } := by
+  have hownt' : owned th' = owned th := by subst hth'; simp [owned]
+  have hownu' : owned uh' = owned uh := by subst huh'; simp [owned]
+  have hxt' : excl th' = false := by subst hth'; simp [excl, hpt]
+  have hxu' : excl uh' = false := by subst huh'; simp [excl, hpu]
+  have hxt : excl th = false := by simp [excl, hpt]
+  have hxu : excl uh = false := by simp [excl, hpu]
+  have hru : uh'.refs = uh.refs := by subst huh'; rfl
+  have hrt : ∀ x, x ∈ th'.refs → x ∈ th.refs := by
+    intro x hx; subst hth'; exact List.mem_of_mem_erase hx
+  have hrt' : ∀ x, x ≠ u → x ∈ th.refs → x ∈ th'.refs := by
+    intro x hne hx; subst hth'; exact (List.mem_erase_of_ne hne).2 hx
+  have hct : th'.coh = th.coh := by subst hth'; rfl
+  have hcu : uh'.coh = max uh.coh th.coh := by subst huh'; rfl
+  have hht : th'.handles = th.handles := by subst hth'; rfl
+  have hhu : uh'.handles = uh.handles := by subst huh'; rfl
+  obtain ⟨hst, hsu⟩ := get_set2_self (th' := th') (uh' := uh') ht hu htu
+  have hlook := fun (w : Nat) wh => get_set2_cases (w := w) (wh := wh) (th' := th') (uh' := uh') ht hu htu
+  have htot : total { s with thr := (s.thr.set t th').set u uh' } = total s := by
+    have hu1 : (s.thr.set t th')[u]? = some uh := by rw [get_set_ne (Ne.symm htu)]; exact hu
+    have e1 := total_set s t th th' ht
+    have e2 := total_set { s with thr := s.thr.set t th' } u uh uh' hu1
+    simp only [total] at e1 e2 ⊢
+    omega
+  -- pinned can only decrease
+  have hpin : ∀ x, pinned { s with thr := (s.thr.set t th').set u uh' } x = true → pinned s x = true := by
+    intro x hp
+    rw [pinned_iff] at hp ⊢
+    obtain ⟨w, wh, hw, hm⟩ := hp
+    rcases hlook w wh hw with ⟨rfl, rfl⟩ | ⟨rfl, rfl⟩ | ⟨_, _, hw'⟩
+    · exact ⟨_, uh, hu, hru ▸ hm⟩
+    · exact ⟨_, th, ht, hrt x hm⟩
+    · exact ⟨w, wh, hw', hm⟩
+  refine ⟨?_, ?_, ?_, ?_, ?_, ?_, ?_, ?_⟩
+  · rw [htot]; exact h.track
+  · rw [htot]; exact h.ceil
+  · intro i m hi hz w wh hw hown1
+    -- old fact about the same thread
+    have key : ∀ (x : Nat) (xh : Thread), s.thr[x]? = some xh → 1 ≤ owned xh → ∀ xh' : Thread,
+        ((s.thr.set t th').set u uh')[x]? = some xh' → xh.coh ≤ xh'.coh →
+        i < xh'.coh ∨ ∃ (y : Nat) (yh : Thread), ((s.thr.set t th').set u uh')[y]? = some yh ∧ x ∈ yh.refs ∧ i < yh.coh := by
+      intro x xh hx ho xh' hx' hc
+      rcases h.J i m hi hz x xh hx ho with h1 | ⟨y, yh, hy, hm, hlt⟩
+      · exact Or.inl (by omega)
+      · by_cases hyt : y = t
+        · subst hyt
+          have : yh = th := by rw [ht] at hy; injection hy with hy; exact hy.symm
+          subst this
+          by_cases hxu : x = u
+          · -- the returned reference: the lender's coherence index takes over
+            subst hxu
+            left
+            rw [hsu] at hx'; injection hx' with hx'; subst hx'
+            rw [hcu]; omega
+          · exact Or.inr ⟨y, th', hst, hrt' x hxu hm, by omega⟩
+        · by_cases hyu : y = u
+          · subst hyu
+            have : yh = uh := by rw [hu] at hy; injection hy with hy; exact hy.symm
+            subst this
+            exact Or.inr ⟨y, uh', hsu, hru ▸ hm, by rw [hcu]; omega⟩
+          · exact Or.inr ⟨y, yh, by rw [get_set2_ne hyt hyu]; exact hy, hm, hlt⟩
+    rcases hlook w wh hw with ⟨rfl, rfl⟩ | ⟨rfl, rfl⟩ | ⟨_, _, hw'⟩
+    · exact key _ uh hu (by omega) _ hsu (by rw [hcu]; omega)
+    · exact key _ th ht (by omega) _ hst (by omega)
+    · exact key w wh hw' hown1 wh hw (Nat.le_refl _)
+  · intro w wh pc hw hp
+    rcases hlook w wh hw with ⟨rfl, rfl⟩ | ⟨rfl, rfl⟩ | ⟨_, _, hw'⟩
+    · subst huh'; simp [hpu] at hp
+    · subst hth'; simp [hpt] at hp
+    · obtain ⟨h1, h2⟩ := h.pcok w wh pc hw' hp
+      refine ⟨h1, h2.congr rfl (Nat.le_refl _) rfl ?_⟩
+      intro hf
+      cases hp' : pinned { s with thr := (s.thr.set t th').set u uh' } w with
+      | false => rfl
+      | true => have := hpin w hp'; simp [hf] at this
+  · intro w wh x hw hm
+    have hold : ∃ xh, s.thr[x]? = some xh ∧ 1 ≤ xh.handles := by
+      rcases hlook w wh hw with ⟨rfl, rfl⟩ | ⟨rfl, rfl⟩ | ⟨_, _, hw'⟩
+      · exact h.Rf _ uh x hu (hru ▸ hm)
+      · exact h.Rf _ th x ht (hrt x hm)
+      · exact h.Rf w wh x hw' hm
+    obtain ⟨xh, hxh, hh'⟩ := hold
+    by_cases hxt : x = t
+    · subst hxt
+      have : xh = th := by rw [ht] at hxh; injection hxh with hxh; exact hxh.symm
+      subst this
+      exact ⟨th', hst, by omega⟩
+    · by_cases hxu : x = u
+      · subst hxu
+        have : xh = uh := by rw [hu] at hxh; injection hxh with hxh; exact hxh.symm
+        subst this
+        exact ⟨uh', hsu, by omega⟩
+      · exact ⟨xh, by rw [get_set2_ne hxt hxu]; exact hxh, hh'⟩
+  · intro w wh hw he
+    rcases hlook w wh hw with ⟨rfl, rfl⟩ | ⟨rfl, rfl⟩ | ⟨hwt, hwu, hw'⟩
+    · rw [hxu'] at he; simp at he
+    · rw [hxt'] at he; simp at he
+    · obtain ⟨h1, h2, h3⟩ := h.X w wh hw' he
+      refine ⟨?_, h2, h3⟩
+      intro y yh hy hyt
+      rcases hlook y yh hyt with ⟨rfl, rfl⟩ | ⟨rfl, rfl⟩ | ⟨_, _, hy'⟩
+      · have := h1 _ uh (Ne.symm hwu) hu
+        exact ⟨by omega, hxu'⟩
+      · have := h1 _ th (Ne.symm hwt) ht
+        exact ⟨by omega, hxt'⟩
+      · exact h1 y yh hy hy'
+  · refine ⟨h.Fz.1, ?_⟩
+    intro hf w wh hw
+    rcases hlook w wh hw with ⟨rfl, rfl⟩ | ⟨rfl, rfl⟩ | ⟨_, _, hw'⟩
+    · have := h.Fz.2 hf _ uh hu
+      exact ⟨by omega, hxu'⟩
+    · have := h.Fz.2 hf _ th ht
+      exact ⟨by omega, hxt'⟩
+    · exact h.Fz.2 hf w wh hw'
+  · rw [htot]
+    intro h0
+    rcases h.L h0 with hf | ⟨w, wh, hw, hxw⟩
+    · exact Or.inl hf
+    · right
+      by_cases hwt : w = t
+      · subst hwt
+        rw [ht] at hw; injection hw with hw; subst hw
+        simp [hxt] at hxw
+      · by_cases hwu : w = u
+        · subst hwu
+          rw [hu] at hw; injection hw with hw; subst hw
+          simp [hxu] at hxw
+        · exact ⟨w, wh, by rw [get_set2_ne hwt hwu]; exact hw, hxw⟩
+
+/-! ## Thread-local steps -/
 
 /-- An (acquire or other) fence of an in-flight method whose remaining code is local. -/
 theorem Wf1.fenceStep {c : Cfg} (sh : Shape c) {s : State} (h : Wf1 c s) {t : Nat} {th : Thread}
     (ht : s.thr[t]? = some th) {k : Kont} {o : Ord} {rest : List AStep} {old : Nat}
     (hpc : th.pc = some ⟨k, .simple (.fence o) :: rest, old⟩) (view' : List Nat) :
     Wf1 c { s with thr := s.thr.set t { th with view := view', pc := some ⟨k, norm c.ceil rest old, old⟩ } } := by
-  obtain ⟨hok, hh⟩ := h.pcok t th _ ht hpc
+  obtain ⟨hok, hside⟩ := h.pcok t th _ ht hpc
   -- the remaining code is local
   have hloc : ∃ r, localRet rest = some r ∧ PcOk c ⟨k, rest, old⟩ := by
     cases k <;> simp only [PcOk, sh.hdecr, sh.hincr, sh.huniq, sh.hget, List.tail] at hok
@@ -553,7 +1095,7 @@ theorem Wf1.fenceStep {c : Cfg} (sh : Shape c) {s : State} (h : Wf1 c s) {t : Na
       · exact ⟨_, by simpa [localRet] using h1, Or.inr ⟨b, by simpa [localRet] using h1⟩⟩
   obtain ⟨r, hr, hok'⟩ := hloc
   rw [norm_of_localRet c.ceil old hr]
-  refine h.upd ht rfl rfl rfl rfl ?_ (Nat.le_refl _) ?_ ?_ ?_
+  refine h.upd ht rfl rfl rfl rfl ?_ (Nat.le_refl _) rfl (fun hh => Or.inl hh) ?_ ?_ ?_
   · cases k <;> simp [owned, inflight, hpc, localRet] <;> congr
   · intro he
     left
@@ -563,6 +1105,6 @@ theorem Wf1.fenceStep {c : Cfg} (sh : Shape c) {s : State} (h : Wf1 c s) {t : Na
   · intro pc hp
     simp at hp
     subst hp
-    exact ⟨hok', by simpa using hh⟩
+    exact ⟨hok', hside.congr rfl (Nat.le_refl _) rfl id⟩
 
 end HipVerif.Model.Conc
